@@ -294,7 +294,7 @@ Section Structure.
   Definition fl_ok (f : nfun) : Prop :=
     str_in (nf_name f) LEGAL_NUMERIC_OPERATORS = false /\ NoDup (nf_params f) /\
     exists sig, alookup (nf_name f) funcs = Some sig /\
-                (List.length (nf_params f) <= List.length sig)%nat /\ (nf_params f = [] -> sig = []).
+                List.length (nf_params f) = List.length sig /\ (nf_params f = [] -> sig = []).
 
   Definition is_num (t : ntree) : bool := match t with NNum _ => true | _ => false end.
 
@@ -330,6 +330,13 @@ Section Structure.
       + apply (Hdis y); [right; exact Hy | exact Hys].
   Qed.
 
+  Lemma has_dup_s_nodup' l : NoDup l -> has_dup_s l = false.
+  Proof.
+    induction l as [|x xs IH]; intros Hnd; [reflexivity|]. inversion Hnd as [|? ? Hnx Hnd']; subst. cbn [has_dup_s].
+    rewrite (IH Hnd'), orb_false_r. destruct (str_in x xs) eqn:E; [|reflexivity].
+    apply str_in_In in E. contradiction.
+  Qed.
+
   Lemma reread_fluent f : fl_ok f -> construct strict pn funcs (print_sexp digits (NFl f)) = Ok (NFl f).
   Proof.
     intros (Hn & Hnd & sig & Hsig & Hlen & Hnil). destruct f as [n a]. cbn [nf_name nf_params] in *.
@@ -337,9 +344,10 @@ Section Structure.
     change (all_atoms (Atom n :: map Atom a)) with
       (match all_atoms (map Atom a) with Some t => Some (n :: t) | None => None end).
     rewrite all_atoms_map'. cbn [construct_flat]. rewrite Hn, Hsig.
+    rewrite Hlen, Nat.eqb_refl, (has_dup_s_nodup' _ Hnd). cbn [negb orb]. rewrite andb_false_r.
     destruct a as [|x xs].
     - rewrite (Hnil eq_refl). reflexivity.
-    - rewrite firstn_all2 by exact Hlen.
+    - rewrite firstn_all2 by (rewrite Hlen; apply Nat.le_refl).
       rewrite dedup_keys_nodup'; [reflexivity | exact Hnd | intros ? _ []].
   Qed.
 
